@@ -70,6 +70,10 @@ func runSolver(sp solverSpec, file string, timeoutS, seed int) (verdict string, 
 	if strings.Contains(out, "timeout") || ctx.Err() != nil {
 		return "unknown", out, dur
 	}
+	if strings.HasPrefix(first, "(error") {
+		// a malformed query is a defect of the generator: never let it pass as a verdict of another line
+		return "error", out, dur
+	}
 	return "error", out, dur
 }
 
